@@ -1,8 +1,9 @@
 import PB.Model.FsAtomic
 import PB.Model.FsWriters
+import PB.Model.FsDownload
 import PB.Drv.Loop
 /- Driver for C17: replays one recorded run of a writer through the file-system model.
-   run … · mk <path>|<entry> · dest … · sys <call> · end · readers · check · temps -/
+   run … · mk <path>|<entry> · dest … · dl … · sys <call> · end · readers · check · temps · http · outcome · prog … -/
 namespace PB.Drv.C17
 open PB.FsAtomic
 
@@ -20,6 +21,12 @@ structure DS where
   results : List Res := []     -- reversed, the OBSERVED results (for the program acceptor)
   haveDest : Bool := false
   volOk : Bool := true
+  -- download scenario (line `dl`): entry point, verification, signature file, planned responses
+  dlSet : Bool := false
+  dlGetFile : Bool := false
+  dlVerif : Option Verif := none
+  dlSigDest : Option Path := none
+  dlWires : List Wire := []
 
 def parsePath (s : String) : Path := s.splitOn "/"
 
@@ -150,6 +157,98 @@ def kv (w : String) : Option (String × String) :=
   | k :: v :: rest => some (k, "=".intercalate (v :: rest))
   | _ => none
 
+/-- `len<N>` | `chunked` | `close` -/
+def parseFraming (s : String) : Option Framing :=
+  if s = "chunked" then some .chunked
+  else if s = "close" then some .close
+  else if s.startsWith "len" then ((s.drop 3).toString.toNat?).map Framing.length
+  else none
+
+def parseEnding (s : String) : Option Ending :=
+  if s = "term" then some .terminated else if s = "fin" then some .fin else if s = "rst" then some .reset else none
+
+def parseBit (s : String) : Option Bool :=
+  if s = "1" then some true else if s = "0" then some false else none
+
+/-- `<connects>:<status>:<framing>:<gzip>:<arrived>:<end>:<plain>:<gzipOk>:<digestOk>` -/
+def parseWire (s : String) : Option Wire :=
+  match s.splitOn ":" with
+  | [c, st, f, g, a, e, pl, gz, dg] =>
+    match parseBit c, st.toNat?, parseFraming f, parseBit g, a.toNat?, parseEnding e, pl.toNat?, parseBit gz, parseBit dg with
+    | some c, some st, some f, some g, some a, some e, some pl, some gz, some dg =>
+      some { connects := c, status := st, framing := f, gzip := g, arrived := a, ending := e, plain := pl, gzipOk := gz,
+             digestOk := dg }
+    | _, _, _, _, _, _, _, _, _ => none
+  | _ => none
+
+def parseWires (s : String) : Option (List Wire) :=
+  (s.splitOn ";").foldr (fun x acc => match parseWire x, acc with
+    | some w, some l => some (w :: l)
+    | _, _ => none) (some [])
+
+/-- `none` | `<require|warn|disable>:<sigOk>` -/
+def parseVerif (s : String) : Option (Option Verif) :=
+  if s = "none" then some none
+  else match s.splitOn ":" with
+    | [p, a] =>
+      let pol : Option Policy := if p = "require" then some .require else if p = "warn" then some .warn
+        else if p = "disable" then some .disable else none
+      match pol, parseBit a with
+      | some pol, some a => some (some { policy := pol, sigOk := a })
+      | _, _ => none
+    | _ => none
+
+def outcomeStr : Outcome → String
+  | .refusedEarly => "none"
+  | .abort => "abort"
+  | .publish false => "publish"
+  | .publish true => "publish+sig"
+
+/-- What the client is predicted to see of one response. -/
+def respStr (r : Resp) : String :=
+  if r.reqErr then "error"
+  else if PB.Gen.FsDownload.statusRefused (r.status : Int) then s!"status={r.status} cl={r.contentLength} read=0 err=0"
+  else s!"status={r.status} cl={r.contentLength} read={r.got} err={if r.copyErr then 1 else 0}"
+
+/-- Bytes fetchFile writes to the pending file in an attempt (io.Copy is not reached when the request fails). -/
+def bodyWritten (v : Option Verif) (w : Wire) : Nat :=
+  let r := transport w
+  if fetchDecision v r == .refusedEarly || r.reqErr || PB.Gen.FsDownload.statusRefused (r.status : Int) then 0 else r.got
+
+/-- The wires of the attempts that are made (up to and including the first one that publishes). -/
+def wiresMade (v : Option Verif) : List Wire → List Wire
+  | [] => []
+  | w :: rest => if (fetchDecision v (transport w)).publishes then [w] else w :: wiresMade v rest
+
+structure Split where
+  /-- descriptor → (true: pending file of the resource, false: temporary file of the signature) -/
+  open_ : List (Nat × Bool) := []
+  /-- chunks per attempt, newest first, each reversed -/
+  groups : List (List Seg) := []
+  sigChunks : List Seg := []   -- reversed
+
+/-- The chunks written to the pending file of each attempt (one group per temporary file created for the
+    resource in `regTmp`) and the chunks written to the temporary file of the signature. -/
+def splitChunks (regTmp dest : Path) (sigDest : Option Path) (t : List Call) : List (List Seg) × List Seg :=
+  let st := t.foldl (fun (st : Split) c =>
+    match c with
+    | .openC p true true _ _ fd =>
+      if tempNameOk regTmp (tmpPrefix dest) p then
+        { st with groups := [] :: st.groups, open_ := match fd with | some n => (n, true) :: st.open_ | none => st.open_ }
+      else match sigDest, fd with
+        | some sd, some n =>
+          if (match p.getLast? with | some x => ((tmpPrefix sd) ++ "#").toList.isPrefixOf x.toList | none => false)
+          then { st with open_ := (n, false) :: st.open_ } else st
+        | _, _ => st
+    | .write fd g =>
+      match st.open_.lookup fd, st.groups with
+      | some true, cur :: older => { st with groups := (g :: cur) :: older }
+      | some false, _ => { st with sigChunks := g :: st.sigChunks }
+      | _, _ => st
+    | .close fd => { st with open_ := st.open_.filter (fun e => !(e.1 == fd)) }
+    | _ => st) ({} : Split)
+  ((st.groups.map List.reverse).reverse, st.sigChunks.reverse)
+
 /-- temporary, or (below) another file the same operation publishes (`also=`; it is the destination of its own scenario) -/
 def tmpPred (d : DS) : Path → Bool :=
   fun p => isTemp d.tmpdirs d.dest.dropLast d.prefixes p || d.also.any (fun a => a.isPrefixOf p)
@@ -178,6 +277,46 @@ def handle (d : DS) (line : String) : DS × String :=
       let d2 : DS := { d1 with tmpdirs := td.map parsePath, prefixes := pf, also := al, s0 := d.fs, calls := [], haveDest := true }
       ({ d2 with volOk := allowed o n (vview d.fs dp) }, "ok")
     | _, _ => (d, "bad-op")
+  | "dl" :: rest =>
+    if !d.haveDest then (d, "bad-op") else
+    let get (k : String) : String := ((rest.filterMap kv).lookup k).getD ""
+    let api : Option Bool := if get "api" = "getfile" then some true else if get "api" = "updates" then some false else none
+    let sd : Option (Option Path) := if get "sigdest" = "-" then some none else if get "sigdest" = "" then none else some (some (parsePath (get "sigdest")))
+    match api, parseVerif (get "verif"), sd, parseWires (get "wires") with
+    | some a, some v, some sd, some ws => ({ d with dlSet := true, dlGetFile := a, dlVerif := v, dlSigDest := sd, dlWires := ws }, "ok")
+    | _, _, _, _ => (d, "bad-op")
+  | ["http"] =>
+    if !d.dlSet then (d, "bad-op") else
+    (d, ";".intercalate (((wiresMade d.dlVerif d.dlWires).filter (fun w => fetchDecision d.dlVerif (transport w) != .refusedEarly)).map
+      (fun w => respStr (transport w))))
+  | ["outcome"] =>
+    if !d.dlSet then (d, "bad-op") else
+    (d, ";".intercalate ((wiresMade d.dlVerif d.dlWires).map
+      (fun w => outcomeStr (fetchDecision d.dlVerif (transport w)) ++ ":" ++ toString (bodyWritten d.dlVerif w))))
+  | "zipcopy" :: rest =>
+    let get (k : String) : String := ((rest.filterMap kv).lookup k).getD ""
+    match (get "size").toNat?, parseBit (get "err") with
+    | some n, some e =>
+      let r := zipCopy { size := n, readErr := e }
+      (d, if r.2 then "written=- failed=1" else s!"written={r.1} failed=0")
+    | _, _ => (d, "bad-op")
+  | "unpack" :: rest =>
+    let get (k : String) : String := ((rest.filterMap kv).lookup k).getD ""
+    if get "kind" = "gz" then
+      match parseBit (get "there"), parseBit (get "header"), parseBit (get "stream") with
+      | some th, some h, some st => (d, if fileUnpackPublishes th { headerOk := h, streamOk := st } then "publish" else "no-publish")
+      | _, _, _ => (d, "bad-op")
+    else if get "kind" = "zip" then
+      let ms : Option (List ZipMember) := if get "members" = "" then some [] else
+        ((get "members").splitOn ",").foldr (fun x acc => match x.splitOn ":", acc with
+          | [a, b], some l => match a.toNat?, parseBit b with
+            | some n, some e => some ({ size := n, readErr := e } :: l)
+            | _, _ => none
+          | _, _ => none) (some [])
+      match parseBit (get "opens"), ms with
+      | some o, some ms => (d, if unpackZipPublishes o ms then "publish" else "no-publish")
+      | _, _ => (d, "bad-op")
+    else (d, "bad-op")
   | "sys" :: ws =>
     if !d.haveDest then (d, "bad-op") else
     match parseCall ws with
@@ -210,6 +349,18 @@ def handle (d : DS) (line : String) : DS × String :=
         let storage := parsePath (get "storage")
         let dirs := (List.range (d.dest.length - storage.length)).map (fun i => (d.dest.take (storage.length + i), 0o755))
         some (fetchFileP dirs (storage ++ ["tmp"]) d.dest chunks (get "httpfails" = "1") (get "bodyfails" = "1"))
+      | "download", _ =>
+        if !d.dlSet then none else
+        let storage := parsePath (get "storage")
+        let dirs := (List.range (d.dest.length - storage.length)).map (fun i => (d.dest.take (storage.length + i), 0o755))
+        let (groups, sigChunks) := splitChunks (storage ++ ["tmp"]) d.dest d.dlSigDest t
+        let sig : Option SigFile := d.dlSigDest.map (fun sd => { dest := sd, tmpdir := tmpdir, chunks := sigChunks })
+        let atts := (d.dlWires.zip (List.range d.dlWires.length)).map (fun wi => (wi.1, groups.getD wi.2 []))
+        some (downloadP dirs (storage ++ ["tmp"]) d.dest d.dlVerif sig d.dlGetFile atts)
+      | "gunzip", _ =>
+        match optdir, parseBit (get "header"), parseBit (get "stream") with
+        | some od, some h, some st => some (fileUnpackD od tmpdir d.dest { headerOk := h, streamOk := st } chunks)
+        | _, _, _ => none
       | "fileunpack", _ => optdir.map (fun od => fileUnpackP od tmpdir d.dest chunks (get "readfails" = "1"))
       | "symlink", _ => some (symlinkP (get "target") d.dest)
       | "nothing", _ => some (.ret true)
